@@ -32,6 +32,10 @@ def run(tier, seed):
     res = ce.run_dfs(fxv, rd, ce.range_family(), "range", maxsched=500 if tier == "quick" else 4000,
                      preempt=2 if tier == "quick" else 3)
     collect(PROP, res, rd, ["RangeStable"], viol, cst)
+    # scans longer than the scan's internal intervals (epoch re-pin every 256 entries, preallocation 1024)
+    big = ce.bigscan_family(700) + (ce.bigscan_family(1300) if tier != "quick" else [])
+    res = ce.run_dfs(fxv, rd, big, "bigscan", chunk=1, maxsched=40 if tier == "quick" else 200, preempt=2)
+    collect(PROP, res, rd, ["RangeStable", "Linearizable"], viol, cst)
     # every mutation path updates the ordered index inside the key's critical section, the sweeper and
     # the lazy expiry path included: creators racing with them (both indexes agree at quiescence)
     sfam = [(n, p) for n, p in ce.pair_family() if ("|sweep" in n or "sweep|" in n or n.startswith("expired|"))
@@ -53,6 +57,8 @@ def run(tier, seed):
     free += [("churn_%d" % i, ["--seed", str(rng.randrange(1 << 30)), "--threads", "3", "--ops", "150", "--keys", "2",
                                "--rounds", "12", "--churn", "1", "--background", "20000"])
              for i in range(4 if tier == "quick" else 24)]
+    free += [("free_big_%d" % i, ["--seed", str(rng.randrange(1 << 30)), "--threads", "3", "--ops", "14", "--keys", "300",
+                                  "--rounds", "4"]) for i in range(2 if tier == "quick" else 10)]
     collect(PROP, ce.run_free(fxv, rd, free), rd, ["RangeStable"], viol, cst)
     st["traces"] += cst["traces"]; st["states"] += cst["states"]; st["transitions"] += cst["transitions"]
     st["events"] += cst["events"]
